@@ -133,6 +133,8 @@ pub enum Op {
     Init,
     Sleep { warm: bool },
     PrepTx { ch: u8, len: u8 },
+    /// prepare_for_tx with a 256-octet payload: refused (no LoRa packet holds it), nothing is armed
+    PrepTxOversize { ch: u8 },
     Tx { irq: Vec<Ev> },
     PrepRx { mode: RxM, ch: u8 },
     StartRx,
@@ -152,6 +154,7 @@ impl Op {
             Op::Init => "init",
             Op::Sleep { .. } => "sleep",
             Op::PrepTx { .. } => "prepare_for_tx",
+            Op::PrepTxOversize { .. } => "prepare_for_tx(256 octets)",
             Op::Tx { .. } => "tx",
             Op::PrepRx { .. } => "prepare_for_rx",
             Op::StartRx => "start_rx",
@@ -177,6 +180,7 @@ impl Op {
             Op::Init => json!({"op":"init"}),
             Op::Sleep { warm } => json!({"op":"sleep","warm":warm}),
             Op::PrepTx { ch, len } => json!({"op":"prepare_for_tx","ch":ch,"len":len}),
+            Op::PrepTxOversize { ch } => json!({"op":"prepare_for_tx_256_octets","ch":ch}),
             Op::Tx { irq: i } => json!({"op":"tx","irq":irq(i)}),
             Op::PrepRx { mode, ch } => match mode {
                 RxM::Single(n) => json!({"op":"prepare_for_rx","mode":"single","symbols":n,"ch":ch}),
@@ -210,6 +214,7 @@ impl Op {
                 },
                 ch: ch()?,
             },
+            "prepare_for_tx_256_octets" => Op::PrepTxOversize { ch: ch()? },
             "start_rx" => Op::StartRx,
             "complete_rx" => Op::CompleteRx { irq: irq()? },
             "rx" => Op::Rx { irq: irq()? },
@@ -476,6 +481,18 @@ impl<RK: RadioKind> Interp<RK> {
                     let buf = tx_payload_for(idx, *len);
                     fin(poll_once(lora.prepare_for_tx(&mp, &mut pp, 14, &buf)), |_| Res::Ok)
                 }
+                Op::PrepTxOversize { ch } => {
+                    let (hz, sf, bw) = CHANNELS[*ch as usize % 4];
+                    let mp = match lora.create_modulation_params(sf, bw, CodingRate::_4_5, hz) {
+                        Ok(m) => m,
+                        Err(e) => return Res::Err(format!("create_modulation_params: {e:?}")),
+                    };
+                    let mut pp = match lora.create_tx_packet_params(8, false, true, false, &mp) {
+                        Ok(p) => p,
+                        Err(e) => return Res::Err(format!("create_tx_packet_params: {e:?}")),
+                    };
+                    fin(poll_once(lora.prepare_for_tx(&mp, &mut pp, 14, &[0x5Au8; 256])), |_| Res::Ok)
+                }
                 Op::Tx { .. } => fin(poll_once(lora.tx()), |_| Res::Ok),
                 Op::PrepRx { mode, ch } => {
                     let (hz, sf, bw) = CHANNELS[*ch as usize % 4];
@@ -694,6 +711,16 @@ impl<RK: RadioKind> Interp<RK> {
                     self.proto = PMode::Standby;
                 }
             }
+            // a request the driver has to refuse: nothing is armed, the value in force stays, the radio is
+            // left in standby (what the refused call did before it refused) and the driver knows it
+            (Res::Err(_), Op::PrepTxOversize { .. }) => {
+                self.classes.push("refused-request");
+                self.proto = PMode::Standby;
+            }
+            (Res::Err(_), Op::SetSync { word }) if !self.board.is_126x() && *word & 0x0F0F != 0x0404 => {
+                self.classes.push("refused-request");
+                self.proto = PMode::Standby;
+            }
             (Res::Err(e), _) => {
                 return Err(self.viol(case, st, "clean-result", format!("unexpected-error/{name}/{e}"), format!("{name} returned {e} in a fault-free run with legal arguments")));
             }
@@ -708,6 +735,9 @@ impl<RK: RadioKind> Interp<RK> {
                 self.proto = PMode::TxReady;
                 self.exp_freq = Some(CHANNELS[*ch as usize % 4].0);
                 self.exp_payload = tx_payload_for(idx, *len);
+            }
+            (Res::Ok, Op::PrepTxOversize { .. }) => {
+                return Err(self.viol(case, st, "clean-result", format!("oversize-payload-accepted/{name}"), "prepare_for_tx accepted a 256-octet payload".to_string()));
             }
             (_, Op::Tx { .. }) => self.proto = PMode::Standby,
             (_, Op::PrepRx { mode, ch }) => {
@@ -752,7 +782,7 @@ impl<RK: RadioKind> Interp<RK> {
             }
             // a call that sets up a new operation: what an abandoned operation left latched does not
             // belong to the new one (a flag that leaks into it is the stale-flag defect)
-            Op::Init | Op::Sleep { .. } | Op::PrepTx { .. } | Op::PrepRx { .. } | Op::PrepCad { .. } | Op::Listen { .. } | Op::SetSync { .. } => {
+            Op::Init | Op::Sleep { .. } | Op::PrepTx { .. } | Op::PrepTxOversize { .. } | Op::PrepRx { .. } | Op::PrepCad { .. } | Op::Listen { .. } | Op::SetSync { .. } => {
                 self.carried_error = false;
                 self.carried_done = false;
                 self.carried_terminal = None;
@@ -1056,6 +1086,7 @@ pub fn alphabet(board: Board) -> Vec<Op> {
         Op::Sleep { warm: true },
         Op::Sleep { warm: false },
         Op::PrepTx { ch: 0, len: 4 },
+        Op::PrepTxOversize { ch: 1 },
         Op::Tx { irq: vec![Ev::Done] },
         Op::Tx { irq: vec![Ev::Timeout] },
         Op::Tx { irq: vec![Ev::Spurious, Ev::Done] },
@@ -1172,10 +1203,13 @@ pub fn prefixes(board: Board) -> Vec<Vec<Op>> {
         vec![Op::PrepRx { mode: RxM::Continuous, ch: 2 }, Op::Rx { irq: vec![] }],
         vec![Op::SetSync { word: 0x5464 }, Op::Sleep { warm: false }],
     ];
+    // a 16-bit sync word that is not the image of a single-byte word (SX127x: a request the driver refuses -
+    // the word in force stays), then a configuration loss
+    v.push(vec![Op::SetSync { word: 0xAB12 }, Op::Sleep { warm: false }]);
+    // a transmission whose preparation is refused (256-octet payload) after one that was prepared on another channel
+    v.push(vec![Op::PrepTx { ch: 2, len: 7 }, Op::PrepTxOversize { ch: 3 }]);
     if board.is_126x() {
         v.push(vec![Op::PrepRx { mode: RxM::Duty, ch: 0 }, Op::StartRx]);
-        // a 16-bit sync word that is not the image of a single-byte word, then a configuration loss
-        v.push(vec![Op::SetSync { word: 0xAB12 }, Op::Sleep { warm: false }]);
     }
     v
 }
@@ -1363,7 +1397,7 @@ fn fragment(is126: bool) -> impl Strategy<Value = Vec<Op>> {
         1 => (0u8..4).prop_map(|ch| vec![Op::Listen { ch }]),
         // SX126x: any 16-bit word is a legal sync word (also those that are not the image 0xY4Z4 of a
         // single-byte word); the SX127x driver refuses words without a single-byte form
-        1 => proptest::sample::select(if is126 { vec![0x1424u16, 0x3444, 0x5464, 0xF4F4, 0xAB12, 0x0000, 0xFFFF, 0x1234, 0x4141] } else { vec![0x1424u16, 0x3444, 0x5464, 0xF4F4] }).prop_map(|word| vec![Op::SetSync { word }]),
+        1 => proptest::sample::select(if is126 { vec![0x1424u16, 0x3444, 0x5464, 0xF4F4, 0xAB12, 0x0000, 0xFFFF, 0x1234, 0x4141] } else { vec![0x1424u16, 0x3444, 0x5464, 0xF4F4, 0xAB12] }).prop_map(|word| vec![Op::SetSync { word }]),
         1 => proptest::sample::select(vec![vec![], vec![Ev::Done], vec![Ev::Spurious], vec![Ev::Timeout], vec![Ev::PreambleTimeout], vec![Ev::TimeoutDone]]).prop_map(|irq| vec![Op::WaitIrq { irq }]),
         // lone calls (mostly wrong-mode)
         1 => proptest::sample::select(vec![Op::Tx { irq: vec![Ev::Done] }, Op::StartRx, Op::Rx { irq: vec![Ev::Done] }, Op::CompleteRx { irq: vec![Ev::Done] }, Op::Cad { irq: vec![Ev::Done] }, Op::RxSwitch { ch: 1 }]).prop_map(|o| vec![o]),
